@@ -278,7 +278,7 @@ func c09Stores(c *Ctx, a *sketchAnchors) {
 			okWin = isWindowRange(first, last, func(t *Term) bool { return t.isParam(0) })
 		}
 		c.R.check(okWin && okEmpty, rule, "DenseStore/ToProto/window", shortFn(tp), c.fpos(tp), "non-empty: ContiguousBinCounts = copy of bins[minIndex−offset : maxIndex−offset+1]; empty: no counts", fmt.Sprintf("lo=%v hi=%v empty-branch=%v", lo, hi, okEmpty))
-		okOff := off != nil && off.Op == "conv" && off.Args[0].Op == "field" && off.Args[0].Sym == "minIndex"
+		okOff := off != nil && off.Op == "conv" && off.Args[0].Op == "field" && off.Args[0].Sym == dr.minIndex
 		c.R.check(okOff, rule, "DenseStore/ToProto/offset", shortFn(tp), c.fpos(tp), "ContiguousBinIndexOffset = int32(minIndex)", fmt.Sprint(off))
 		// EncodeProto
 		set := settersCalled(c, ep)
